@@ -378,12 +378,125 @@ func traceCheck(c traceCase, info *vlib.Info) *vlib.Failure {
 	return nil
 }
 
+// c02Lex: a valid document's text with one lexical fault; the diagnostic's
+// index must lie in [Lo, Hi] (byte offsets in Source).
+type c02Lex struct {
+	Source string `json:"source"`
+	Kind   string `json:"kind"`
+	Lo     int    `json:"lo"`
+	Hi     int    `json:"hi"`
+}
+
+func genLexFault(t *rapid.T) c02Lex {
+	doc := vlib.GenDoc(t, vlib.GenOpts{Macros: rapid.Bool().Draw(t, "macros"), SingleLineText: true})
+	r := vlib.Render(doc, vlib.Style{})
+	src := r.Text
+	var dirs []*vlib.Dir
+	doc.Walk(func(d, _ *vlib.Dir) {
+		if d.Kw != "JSIGHT" {
+			dirs = append(dirs, d)
+		}
+	})
+	di := rapid.IntRange(0, len(dirs)-1).Draw(t, "dir")
+	d := dirs[di]
+	sp := r.Spans[d.ID]
+	c := c02Lex{}
+	if di > 0 && dirs[di-1].Kw == "Description" {
+		// the line after bare description text is text unless it starts with a
+		// keyword: a fault there is not a fault
+		return c02Lex{Source: src, Kind: "none"}
+	}
+	kind := rapid.SampledFrom([]string{"bad-keyword-letter", "stray-close-paren", "illegal-byte", "schema-syntax", "bad-escape", "unclosed-paren-at-eof"}).Draw(t, "kind")
+	switch kind {
+	case "bad-keyword-letter":
+		if !vlib.IsCode(d.Kw) && len(d.Kw) >= 3 {
+			i := sp.Begin + len(d.Kw) - 1
+			c = c02Lex{Source: src[:i] + "q" + src[i+1:], Kind: kind, Lo: sp.Begin, Hi: sp.Begin + len(d.Kw)}
+		}
+	case "stray-close-paren":
+		// only where no parenthesis is open: before a top-level directive
+		for _, td := range doc.Top {
+			if td == d {
+				ls := strings.LastIndex(src[:sp.Begin], "\n") + 1
+				c = c02Lex{Source: src[:ls] + ")\n" + src[ls:], Kind: kind, Lo: ls, Hi: ls + 1}
+			}
+		}
+	case "illegal-byte":
+		ls := strings.LastIndex(src[:sp.Begin], "\n") + 1
+		c = c02Lex{Source: src[:ls] + "\x01" + src[ls:], Kind: kind, Lo: ls, Hi: ls + 1}
+	case "schema-syntax":
+		if sp.BodyEnd > sp.BodyBeg && d.Schema != nil && d.Schema.Root == "obj" {
+			if j := strings.Index(src[sp.BodyBeg:sp.BodyEnd], "\":"); j >= 0 {
+				i := sp.BodyBeg + j + 1
+				c = c02Lex{Source: src[:i] + ";" + src[i+1:], Kind: kind, Lo: sp.BodyBeg, Hi: sp.BodyEnd}
+			}
+		}
+	case "bad-escape":
+		line := src[sp.Begin:]
+		if nl := strings.Index(line, "\n"); nl >= 0 {
+			line = line[:nl]
+		}
+		if q := len(d.Kw); len(line) > q+1 && line[q] == ' ' && line[q+1] == '"' {
+			i := sp.Begin + q + 2
+			c = c02Lex{Source: src[:i] + "\\q" + src[i:], Kind: kind, Lo: i + 1, Hi: i + 1}
+		}
+	case "unclosed-paren-at-eof":
+		last := doc.Top[len(doc.Top)-1]
+		if last.Explicit {
+			trimmed := strings.TrimRight(src, "\n")
+			if strings.HasSuffix(trimmed, ")") {
+				ns := trimmed[:len(trimmed)-1]
+				c = c02Lex{Source: ns, Kind: kind, Lo: len(ns) - 2, Hi: len(ns)}
+			}
+		}
+	}
+	if c.Kind == "" {
+		return c02Lex{Source: src, Kind: "none"}
+	}
+	// newline convention: positions move by one byte per earlier line break
+	switch rapid.IntRange(0, 2).Draw(t, "nl") {
+	case 1:
+		shift := func(i int) int { return i + strings.Count(c.Source[:min(i, len(c.Source))], "\n") }
+		c.Lo, c.Hi = shift(c.Lo), shift(c.Hi)+1
+		c.Source = strings.ReplaceAll(c.Source, "\n", "\r\n")
+	case 2:
+		c.Source = strings.ReplaceAll(c.Source, "\n", "\r")
+	}
+	return c
+}
+
+func c02LexCheck(c c02Lex, info *vlib.Info) *vlib.Failure {
+	if c.Kind == "none" {
+		info.Class("lex:ineligible")
+		return nil
+	}
+	info.Class("lex:" + c.Kind)
+	info.Class("nl:" + vlib.NewlineConvention(c.Source))
+	p := vlib.Single(c.Source)
+	res := vlib.Run(p)
+	if res.Panic != "" {
+		return vlib.Failf("panic: "+res.Panic, "%s\n%s", res.Panic, vlib.StripCR(c.Source))
+	}
+	if res.Err == nil {
+		return vlib.Failf("lexical-fault-accepted: "+c.Kind, "a document with the lexical fault %q is accepted\n%s", c.Kind, vlib.StripCR(c.Source))
+	}
+	info.NonTrivial = res.Err.Line > 1
+	if f := vlib.CheckLocation(res.Err, p.Files); f != nil {
+		f.Msg += "\n--- source:\n" + vlib.StripCR(c.Source)
+		return f
+	}
+	if res.Err.Index < c.Lo || res.Err.Index > c.Hi {
+		return vlib.Failf("lexical-fault-mislocated: "+c.Kind, "lexical fault %q at bytes [%d,%d]: the diagnostic %q points at byte %d (line %d)\n%s", c.Kind, c.Lo, c.Hi, res.Err.Msg, res.Err.Index, res.Err.Line, vlib.StripCR(c.Source))
+	}
+	return nil
+}
+
 func TestC02(t *testing.T) {
 	h := vlib.New(t, "C02", "fault_enumeration",
 		"every rejected case of: token sequences enumerated after canonical prefixes, token soups, mutated fixtures, fixtures in LF / CRLF / CR (file, index bounds, line and quote recomputed from the index alone), and valid generated documents x one injected fault of every C11 kind x newline convention x a cut into included files up to the tier's depth (same file set rendered with random styles): the diagnostic must lie in the file and span of an offending directive and Error() must be message + fault file:line + one includer:line per enclosing INCLUDE, innermost first; non-trivial = diagnostic not on line 1; distinct by project text",
 		"line / quote reference is defined for files with one newline convention; for mixed conventions only ranges are checked", "offending spans come from the document model (as in C11)")
 	defer vlib.CleanupScratch()
-	req := []string{"rejected", "nl:LF", "nl:CRLF", "nl:CR", "fault-at-include-depth:0", "fault-at-include-depth:1", "fault-at-include-depth:2", "trace-checked"}
+	req := []string{"lex:bad-keyword-letter", "lex:stray-close-paren", "lex:illegal-byte", "lex:schema-syntax", "lex:bad-escape", "lex:unclosed-paren-at-eof", "rejected", "nl:LF", "nl:CRLF", "nl:CR", "fault-at-include-depth:0", "fault-at-include-depth:1", "fault-at-include-depth:2", "trace-checked"}
 	h.Require(req...)
 	// failing inputs of the native fuzz arm (thorough tier, driver-run) replay through this campaign
 	vlib.Enum(h, "native-fuzz", false, func(func(string) bool) {}, c02Bytes)
@@ -414,6 +527,8 @@ func TestC02(t *testing.T) {
 	vlib.Rapid(h, "token-soup", h.N(10000, 500000), func(t *rapid.T) string {
 		return rapid.SampledFrom(vlib.Prefixes).Draw(t, "prefix") + vlib.GenTokenSoup(t, 14)
 	}, c02Bytes)
+
+	vlib.Rapid(h, "lexical-faults", h.N(10000, 400000), genLexFault, c02LexCheck)
 
 	maxDepth := h.Pick(3, 6)
 	vlib.Rapid(h, "injected-faults-in-split-projects", h.N(12000, 600000), func(t *rapid.T) c02Case {
